@@ -5,6 +5,7 @@ import (
 	"crypto/sha256"
 	"encoding/hex"
 	"fmt"
+	"math"
 	"reflect"
 	"strings"
 	"unsafe"
@@ -1152,6 +1153,41 @@ func runC07(ctx *Ctx, idx int) {
 			ctx.Violate("C07/incompatible-version-accepted/"+strings.SplitN(layout, "-", 2)[0], ex)
 		}
 	}
+	// ---- a stream offered to a receiver that cannot interpret its values: an
+	// old layout without recorded value sizes, loaded into an instance created
+	// with an encoder of another width. Whether that is refused is not stated
+	// anywhere (today it is not); but IF the load returns an error, it is a
+	// rejected load like any other: no panic, and the instance is empty.
+	if strings.HasPrefix(layout, "0.5.1") || strings.HasPrefix(layout, "3sec") {
+		for _, other := range []encode.Encoder{encode.I64{}, encode.I16{}, encode.I8{}, encode.Bytes{Size: 3}} {
+			same := true
+			try(func() { same = other.GetEncodedSize(nil) == enc.GetEncodedSize(nil) })
+			if same {
+				continue
+			}
+			st, e0 := trie.NewSlimTrie(other, oldKeys, nil, trie.Opt{Complete: trie.Bool(true)})
+			if e0 != nil {
+				continue
+			}
+			var lerr error
+			pv, stack := try(func() { lerr = st.Unmarshal(stream) })
+			ex := map[string]interface{}{"layout": layout, "receiver_encoder": fmt.Sprintf("%T", other), "stream_encoder": fmt.Sprintf("%T", enc), "keys_hex": hexKeys(keys, 20)}
+			if pv != nil {
+				ctx.Count("other_width_receiver:panicked", 1) // outside the statement: the data cannot be interpreted, nothing is promised about how
+				continue
+			}
+			if lerr == nil {
+				ctx.Count("other_width_receiver:loaded", 1)
+				continue
+			}
+			ctx.Count("other_width_receiver:refused", 1)
+			_ = stack
+			if why := emptyBattery(st, qs); why != "" {
+				ex["why"], ex["error"] = why, lerr.Error()
+				ctx.Violate("C07/refused-not-empty-after-reject/"+strings.SplitN(layout, "-", 2)[0], ex)
+			}
+		}
+	}
 	if ctx.WantSample() && len(keys) >= 2 && len(keys) <= 8 {
 		ctx.Sample(map[string]interface{}{"layout": layout, "keys_hex": hexKeys(keys, 8), "stream_len": n, "cuts_enumerated": len(cuts), "versions_tried": len(vs)})
 	}
@@ -1166,6 +1202,25 @@ func c20NumCases(tier string) int {
 		return 40000
 	}
 	return 600
+}
+
+// sameFloatBits: float slices compared by bit pattern (+0 and -0 are equal
+// under == and under reflect.DeepEqual).
+func sameFloatBits(a, b interface{}) bool {
+	x, ok1 := a.([]float64)
+	y, ok2 := b.([]float64)
+	if !ok1 || !ok2 {
+		return true
+	}
+	if len(x) != len(y) {
+		return false
+	}
+	for i := range x {
+		if math.Float64bits(x[i]) != math.Float64bits(y[i]) {
+			return false
+		}
+	}
+	return true
 }
 
 func scribble(b []byte, how int, r *RNG) {
@@ -1237,6 +1292,12 @@ func runC20(ctx *Ctx, idx int) {
 		kind = legacyKinds[r.Intn(len(legacyKinds))]
 	}
 	vals := genVals(r, kind, n, r.Intn(5))
+	if lay < 2 && idx%9 == 4 && n > 0 {
+		vals = genVals(r, "f64", n, r.Intn(5)) // float values, heavy on the two zeros
+	}
+	if vals.Kind == "f64" {
+		ctx.Count("valkind_in_snapshots:f64", 1)
+	}
 	lc := &LCase{Family: ks.Family, Keys: keys, Vals: vals, R: r}
 	ctx.Eval()
 	if n >= 2 {
@@ -1325,6 +1386,22 @@ func runC20(ctx *Ctx, idx int) {
 			if idx%4 >= 2 {
 				optSlice = table[1:2:2]
 			}
+			if idx%8 == 5 || idx%8 == 7 {
+				// a list of several option structs (only the first counts, the rest
+				// is the caller's all the same): empty place holders in front of,
+				// between and behind the one that is filled in
+				multi := [][]trie.Opt{{{}, opt}, {opt, {}}, {{}, {}, opt, {}}, {opt, sentinel}}[(idx/8)%4]
+				msnap := append([]trie.Opt{}, multi...)
+				try(func() { trie.NewSlimTrie(enc, inKeys, inVals, multi...) })
+				for i := range multi {
+					if multi[i] != msnap[i] {
+						viol("option-slice-modified", map[string]interface{}{"input_valid": pass == 0, "what": "a list of several option structs was rearranged by the build", "element": i,
+							"before": fmt.Sprintf("%+v", msnap), "after": fmt.Sprintf("%+v", multi)})
+						break
+					}
+				}
+				ctx.Count("builds_with_a_list_of_several_option_structs", 1)
+			}
 			pv, stack = try(func() { _, err = trie.NewSlimTrie(enc, inKeys, inVals, optSlice...) })
 			if table[1] != optSnap || table[0] != sentinel || table[2] != sentinel || table[3] != sentinel ||
 				!*sentinel.InnerPrefix || !*sentinel.LeafPrefix || !*sentinel.Complete || *sentinel.DedupValue {
@@ -1349,7 +1426,7 @@ func runC20(ctx *Ctx, idx int) {
 		if !reflect.DeepEqual(inKeys, snapKeys) {
 			viol("key-slice-modified", map[string]interface{}{"input_valid": pass == 0, "after_hex": hexKeys(inKeys, 20), "before_hex": hexKeys(snapKeys, 20)})
 		}
-		if !reflect.DeepEqual(inVals, snapVals) {
+		if !reflect.DeepEqual(inVals, snapVals) || !sameFloatBits(inVals, snapVals) {
 			viol("value-slice-modified", map[string]interface{}{"input_valid": pass == 0})
 		}
 		if opt != optSnap {
@@ -1742,7 +1819,7 @@ func init() {
 		NumCases:      c20NumCases,
 		Run:           runC20,
 		MinNontrivial: func(tier string) int { return 200 },
-		Gates: shapeGates("builds_snapshotted", "builds_with_caller_owned_option_slice", "value_buffer_overwrites_checked", "value_blocks_compared", "value_blocks_overwritten_after_build:4KiB+", "value_blocks_overwritten_after_build:64KiB+", "over_long_builds_snapshotted", "failed_loads_buffer_compared", "value_buffer_shape:1", "value_buffer_shape:2", "value_buffer_shape:3", "marshal_outputs_kept_alive", "input_overwrites_checked", "output_overwrites_checked", "guarded_streams", "guarded_key_sets", "layout:current", "layout:0.5.10", "layout:3sec",
+		Gates: shapeGates("builds_snapshotted", "builds_with_caller_owned_option_slice", "builds_with_a_list_of_several_option_structs", "valkind_in_snapshots:f64", "value_buffer_overwrites_checked", "value_blocks_compared", "value_blocks_overwritten_after_build:4KiB+", "value_blocks_overwritten_after_build:64KiB+", "over_long_builds_snapshotted", "failed_loads_buffer_compared", "value_buffer_shape:1", "value_buffer_shape:2", "value_buffer_shape:3", "marshal_outputs_kept_alive", "input_overwrites_checked", "output_overwrites_checked", "guarded_streams", "guarded_key_sets", "layout:current", "layout:0.5.10", "layout:3sec",
 			"0510_streams_with_prefixes_to_reencode"),
 		Assumptions: []string{"retaining references to key strings is not forbidden by the statement; key memory is only write-protected", "debug.SetPanicOnFault turns SIGSEGV on the guarded mappings into recoverable panics (verified in selftest)"},
 	})
